@@ -216,10 +216,15 @@ class StaticUseDep(packages.PackageRestriction):
 # Which makes no sense; trace and fix.
 class _UseDepDefaultContainment(values.ContainmentMatch, caching=False):
     __slots__ = ("if_missing",)
+    # if_missing is part of the identity: the boolean/package wrappers built
+    # around these objects are instance-cached by equality of their arguments,
+    # so [-a(+),b(+)] must not compare equal to [-a(-),b(-)] or to [-a,b].
+    __attr_comparison__ = ("vals", "all", "negate", "if_missing")
 
     def __init__(self, if_missing: bool, vals, negate=False):
         self.if_missing = bool(if_missing)
         super().__init__(vals, negate=negate, match_all=True)
+        self._hash = hash((self._hash, "if_missing", self.if_missing))
 
     def match(self, val):
         reduced_vals = self.vals
